@@ -128,13 +128,19 @@ func checkConc(c *ConcCase) *Outcome {
 		alone[i] = outcomeString(v, err, p)
 	}
 	// ---- the shared engine has finished its first compilation; shared callables exist
-	shared := newConcEngine(0)
+	// two shared engines (VM and closure back end); program i's shared callable comes from engine i%2
+	sharedEngines := []*yae.Expr{newConcEngine(0), newConcEngine(2)}
 	sharedCl := make([]yae.Callable, len(srcs))
+	for _, e := range sharedEngines {
+		if _, err := e.Compile("1", run.TypeEnv(c.Env)); err != nil {
+			return bad("harness: warm-up compile failed: %v", err)
+		}
+	}
 	for i, src := range srcs {
 		if compileErr[i] {
 			continue
 		}
-		cl, cerr := shared.Compile(src, run.TypeEnv(c.Env))
+		cl, cerr := sharedEngines[i%2].Compile(src, run.TypeEnv(c.Env))
 		if cerr != nil {
 			return bad("harness: shared compile failed: %v", cerr)
 		}
@@ -180,7 +186,7 @@ func checkConc(c *ConcCase) *Outcome {
 				case "shared":
 					p = run.Guard(func() {
 						var cl yae.Callable
-						cl, err = shared.Compile(srcs[op.Prog], tenv)
+						cl, err = sharedEngines[(wi+oi)%2].Compile(srcs[op.Prog], tenv)
 						if err == nil {
 							v, err = cl(venv)
 						}
